@@ -396,11 +396,35 @@ def _root_self(e):
     return None
 
 
-def written_attrs(fn) -> dict:
+def _root_name(e):
+    while isinstance(e, (ast.Subscript, ast.Attribute)):
+        e = e.value
+    return e.id if isinstance(e, ast.Name) else None
+
+
+def written_attrs(fn, module_names=()) -> dict:
     """attributes of self / cls the function writes, with the number of writing sites: assignment, augmented assignment, deletion,
     or a mutating method call on them (through any subscripts): ``self.x = ..``, ``self.x[i] += ..``, ``self.x[i].append(..)``"""
     from collections import Counter
     out = Counter()
+    # module-level objects the function changes in place (a cache kept in a module dictionary, a registry): names it does not bind itself
+    local = {a.arg for a in fn.args.posonlyargs + fn.args.args + fn.args.kwonlyargs} | {x.arg for x in (fn.args.vararg, fn.args.kwarg) if x}
+    local |= {n.id for n in ast.walk(fn) if isinstance(n, ast.Name) and isinstance(n.ctx, ast.Store)}
+    declared = {g for n in ast.walk(fn) if isinstance(n, ast.Global) for g in n.names}
+    for n in ast.walk(fn):
+        g = None
+        if isinstance(n, ast.Call) and isinstance(n.func, ast.Attribute) and n.func.attr in _MUT:
+            g = _root_name(n.func.value)
+        elif isinstance(n, (ast.Assign, ast.AugAssign, ast.Delete)):
+            for t in (n.targets if isinstance(n, (ast.Assign, ast.Delete)) else [n.target]):
+                if isinstance(t, (ast.Subscript, ast.Attribute)) and _root_name(t) not in ('self', 'cls'):
+                    r = _root_name(t)
+                    if r and ((r not in local and r in module_names) or r in declared):
+                        out['global ' + r] += 1
+                elif isinstance(t, ast.Name) and t.id in declared:
+                    out['global ' + t.id] += 1
+        if g and g not in ('self', 'cls') and ((g not in local and g in module_names) or g in declared):
+            out['global ' + g] += 1
     for n in ast.walk(fn):
         tg = []
         if isinstance(n, ast.Assign):
